@@ -140,25 +140,26 @@ def _find_dependencies(ir):
         },
         parameters={"dependencies": dependencies},
     )
+    traverse_ir.fast_traverse_ir_top_down(
+        ir,
+        [ir_data.Structure],
+        _add_anonymous_bits_aliases_to_dependencies,
+        parameters={"dependencies": dependencies},
+    )
     return dependencies, errors
 
 
-def _with_dependencies_of_anonymous_bits_members(structure, dependencies):
-    """Returns dependencies, plus those between aliases of anonymous bits members.
+def _aliases_of_anonymous_bits_members(structure):
+    """Yields (alias, member) names for the aliases of anonymous bits members.
 
     The members of an anonymous `bits` are reached through alias fields in the
-    enclosing structure (`let x = emboss_reserved_anonymous_field_1.x`).  The
-    reference in an alias only shows a dependency on the anonymous field; what
-    the member itself depends on -- `if flag:  1 [+3]  UInt  x` -- is recorded
-    for the member inside the anonymous type.  Those dependencies are carried
-    over to the aliases, so that `flag` is ordered (read, written as text)
-    before `x`.
+    enclosing structure (`let x = emboss_reserved_anonymous_field_1.x`); only the
+    first component of that reference is resolved when dependencies are found.
     """
     local_fields = {
         ir_util.hashable_form_of_reference(field.name): field
         for field in structure.field
     }
-    result = dependencies
     for name, field in local_fields.items():
         if (
             not field.has_field("read_transform")
@@ -174,11 +175,42 @@ def _with_dependencies_of_anonymous_bits_members(structure, dependencies):
         member = ir_util.hashable_form_of_reference(
             head.type.atomic_type.reference
         ) + (path[1].source_name[-1].text,)
+        yield name, member
+
+
+def _add_anonymous_bits_aliases_to_dependencies(structure, dependencies):
+    """Makes each alias of an anonymous bits member depend on that member.
+
+    Without this edge a cycle through the member -- `0 [+Foo.k]  UInt  a` in an
+    anonymous `bits` of Foo, with `let k = $upper_bound(a)` -- is open: `k`
+    depends on the alias `a`, the alias only on the anonymous field.
+    """
+    for alias, member in _aliases_of_anonymous_bits_members(structure):
+        if member in dependencies:
+            dependencies[alias] |= {member}
+
+
+def _with_dependencies_of_anonymous_bits_members(structure, dependencies):
+    """Returns dependencies, plus those between aliases of anonymous bits members.
+
+    The members of an anonymous `bits` are reached through alias fields in the
+    enclosing structure (`let x = emboss_reserved_anonymous_field_1.x`).  The
+    reference in an alias only shows a dependency on the anonymous field; what
+    the member itself depends on -- `if flag:  1 [+3]  UInt  x` -- is recorded
+    for the member inside the anonymous type.  Those dependencies are carried
+    over to the aliases, so that `flag` is ordered (read, written as text)
+    before `x`.
+    """
+    local_names = {
+        ir_util.hashable_form_of_reference(field.name) for field in structure.field
+    }
+    result = dependencies
+    for name, member in _aliases_of_anonymous_bits_members(structure):
         for dependency in sorted(dependencies.get(member, ())):
             sibling = name[:-1] + (dependency[-1],)
             if (
                 dependency[:-1] == member[:-1]
-                and sibling in local_fields
+                and sibling in local_names
                 and sibling != name
             ):
                 if result is dependencies:
